@@ -215,28 +215,31 @@ Definition dec_header_entry (bs : bytes) : res (blockheader * bytes) :=
   '(txc, r') <- dec_varint r ;;
   if 0 <? txc then Err EHasTx else Ok (h, r').
 
-(* version: fixed head, then fields that are "present if bytes remain" *)
+(* version: fixed head, then fields that are "present if bytes remain" (buf.Len() > 0) *)
+Definition if_more {A : Type} (r : bytes) (dflt : A) (dec : bytes -> res (A * bytes)) : res (A * bytes) :=
+  match r with [] => Ok (dflt, r) | _ :: _ => dec r end.
+
 Definition dec_version_head (pver : N) (bs : bytes) : res ((Z * N * Z * netaddr * netaddr * N) * bytes) :=
   '(pv, r) <- read_le 4 bs ;;
   '(svc, r) <- read_le 8 r ;;
   '(ts, r) <- read_le 8 r ;;
   '(you, r) <- dec_netaddr pver false zero_time r ;;
-  '(me, r) <- (match r with [] => Ok (empty_na, r) | _ :: _ => dec_netaddr pver false zero_time r end) ;;
-  '(nonce, r) <- (match r with [] => Ok (0, r) | _ :: _ => read_le 8 r end) ;;
+  '(me, r) <- if_more r empty_na (dec_netaddr pver false zero_time) ;;
+  '(nonce, r) <- if_more r 0 (read_le 8) ;;
   Ok ((to_signed 32 pv, svc, to_signed 64 ts, you, me, nonce), r).
 
 Definition dec_user_agent (mmp : N) (bs : bytes) : res (bytes * bytes) :=
   '(s, r) <- dec_varstring mmp bs ;;
   if MaxUserAgentLen <? len s then Err EUALong else Ok (s, r).
 
+Definition dec_int32 (bs : bytes) : res (Z * bytes) :=
+  '(v, r) <- read_le 4 bs ;; Ok (to_signed 32 v, r).
+
 Definition dec_version (pver mmp : N) (bs : bytes) : res (version * bytes) :=
   '(hd, r) <- dec_version_head pver bs ;;
   let '(pv, svc, ts, you, me, nonce) := hd in
-  '(ua, r) <- (match r with [] => Ok ([], r) | _ :: _ => dec_user_agent mmp r end) ;;
-  '(lb, r) <- (match r with
-               | [] => Ok (0%Z, r)
-               | _ :: _ => '(v, r') <- read_le 4 r ;; Ok (to_signed 32 v, r')
-               end) ;;
+  '(ua, r) <- if_more r [] (dec_user_agent mmp) ;;
+  '(lb, r) <- if_more r 0%Z dec_int32 ;;
   '(dr, r) <- (match r with [] => Ok (false, r) | b :: r' => Ok (b =? 0, r') end) ;;
   Ok (mk_ver pv svc ts you me nonce ua lb dr, r).
 
